@@ -19,6 +19,7 @@ EXPLANATION = ('JOIN-CHECKS: the Welcome path decrypts the group secrets with th
                'KEY-PACKAGE-LIFECYCLE: the reference of the key package that opened the Welcome travels to '
                'GroupStateRepository::new and write_to_storage deletes exactly it (checked result); loading from a snapshot schedules '
                'nothing; the last-resort marking suppresses the deletion. State equality joiner vs members for every tree shape is not decided.')
+EXPLANATION += ' WIRE: the GroupInfo of the new epoch and the update path are signed with the signer of the new epoch.'
 ASSUMPTIONS = ['whether the index constants are right for every tree shape is value-level (tree math, C20 not claimed)']
 
 
